@@ -10,6 +10,7 @@ import (
 )
 
 type State struct {
+	calls   map[string][]*Val // results of the calls made on this path, by site name
 	lits    map[string]bool
 	heapGen int
 	pc     []string
@@ -38,6 +39,10 @@ func (s *State) clone() *State {
 	n.cells = make(map[int]*Val, len(s.cells))
 	for k, v := range s.cells {
 		n.cells[k] = v
+	}
+	n.calls = make(map[string][]*Val, len(s.calls))
+	for k, v := range s.calls {
+		n.calls[k] = v
 	}
 	n.lits = make(map[string]bool, len(s.lits))
 	for k, v := range s.lits {
